@@ -57,7 +57,7 @@ def main():
         print(r.stdout); return 2
     os.makedirs(os.path.join(ROOT, "seeded"), exist_ok=True)
     rep = open(os.path.join(ROOT, "seeded", "mutants-report.jsonl"), "a")
-    env = dict(os.environ, GOFLAGS="-mod=mod", GOPROXY="off", VERIF_REPO=WT)
+    env = dict(os.environ, GOFLAGS="-mod=mod", GOPROXY="off", VERIF_REPO=WT, VERIF_EVIDENCE_DIR=os.path.join(ROOT, ".build", "evidence-scratch"))
     try:
         for m in M:
             if sel and not any(s in m["name"] for s in sel):
